@@ -146,7 +146,11 @@ where
                     let mut pw = left_weight;
                     for q in p + 1..n - 1 {
                         pw += part_weights[q];
-                        if approx::abs_diff_eq!(pw.as_(), expected_left_weight) {
+                        if approx::abs_diff_eq!(
+                            pw.as_(),
+                            expected_left_weight,
+                            epsilon = f64::EPSILON * f64::min(1.0, total_weight.as_())
+                        ) {
                             split.min_bound = splits[q].position;
                             split.max_bound = splits[q].position;
                             break;
@@ -164,7 +168,11 @@ where
                     let mut pw = left_weight;
                     for q in (0..p).rev() {
                         pw -= part_weights[q + 1];
-                        if approx::abs_diff_eq!(pw.as_(), expected_left_weight) {
+                        if approx::abs_diff_eq!(
+                            pw.as_(),
+                            expected_left_weight,
+                            epsilon = f64::EPSILON * f64::min(1.0, total_weight.as_())
+                        ) {
                             split.min_bound = splits[q].position;
                             split.max_bound = splits[q].position;
                             break;
